@@ -30,11 +30,13 @@ SHAPES = {
     ("CTWInteraction", "choose_inelasticity"): "fa0b3220adb48d7c",
     ("CTWInteraction", "total_cross_section"): "a36839c9d70cab22",
     ("CTWInteraction", "cross_section"): "8ee097173548521c",
-    ("Event", "__init__"): "0984082433488994",
+    # Event.__init__ / get_from_level: shapes after F24 (the event keeps its own copy of the roots list and hands out a
+    # copy at level 0) - the model's `roots` is a value, i.e. owned by the event
+    ("Event", "__init__"): "e49f7e902c06a1de",
     ("Event", "add_children"): "ca50ad9bb82317ff",
     ("Event", "get_children"): "e98754e0ed7dc464",
     ("Event", "get_parent"): "079998510df6f3ea",
-    ("Event", "get_from_level"): "421312db0fe071ba",
+    ("Event", "get_from_level"): "0481d5d02f76f917",
     ("Event", "__iter__"): "b712e9313da1cba6",
     ("Event", "__len__"): "f05bb9e762580f42",
 }
